@@ -176,6 +176,14 @@ func orderCases() []orderCase {
 	cs = append(cs, orderCase{Name: "dup-kwargs-var", Src: "{|| \\_}(**{k: 1}, **{k: 2, j: 3}).p", WantOut: "{\"j\": 3, \"k\": 1}\n"})
 	// stdin-consuming and iterator-advancing variants (value shows the order)
 	cs = append(cs, orderCase{Name: "stdin-array", Src: "[<>.S, <>.S, <>.S].p", Stdin: "l1\nl2\nl3\n", WantOut: "[\"l1\", \"l2\", \"l3\"]\n"})
+	// the parts of an interpolated string are evaluated AND converted one after the other (the conversion of a
+	// part is a property call like any other: here it reads a line / prints / advances an iterator)
+	cs = append(cs, orderCase{Name: "stdin-embedded-str-implicit-conversion", Src: `"#{<>}|#{<>.uc}|#{<>}".p`, Stdin: "x\ny\nz\n", WantOut: "x|Y|z\n"})
+	cs = append(cs, orderCase{Name: "embedded-str-conversion-interleaved", Src: "d := {S: m{\"S\".p; \"d\"}}\n\"#{d}#{t(1, 1)}#{d}#{t(2, 2)}\".p", WantOut: "S\nt1\nS\nt2\nd1d2\n"})
+	cs = append(cs, orderCase{Name: "embedded-str-conversion-advances-iterator", Src: "it := <{|n| yield n; recur(n + 1)}>.new(1)\nd := {S: m{it.next.S}}\n\"#{d} #{it.next} #{d}\".p", WantOut: "1 2 3\n"})
+	// a literal with keyword defaults is evaluated completely every time it is reached
+	cs = append(cs, orderCase{Name: "kwarg-defaults-of-a-literal-evaluated-again", Src: "mk := {|n| {|x, step: t(n, n)| x + step}}\n[mk(1)(10), mk(5)(10), mk(1)(10)].p", WantOut: "t1\nt5\nt1\n[11, 15, 11]\n"})
+	cs = append(cs, orderCase{Name: "kwarg-defaults-of-literals-in-a-chain", Src: "[1, 2]@{|n| {|step: t(n, n)| step}}@{|f| f()}.p\n[3, 4]@{|n| <{|i, step: t(n, n)| yield step}>.new(0).next}.p", WantOut: "t1\nt2\n[1, 2]\nt3\nt4\n[3, 4]\n"})
 	cs = append(cs, orderCase{Name: "stdin-embedded-str", Src: `"#{<>.S} #{<>.S}".p`, Stdin: "l1\nl2\n", WantOut: "l1 l2\n"})
 	cs = append(cs, orderCase{Name: "stdin-kwargs", Src: "ff(<>.S, k: <>.S, j: <>.S).p", Stdin: "l1\nl2\nl3\n", WantOut: "[\"l1\", nil, nil, \"l2\", \"l3\", 0]\n"})
 	cs = append(cs, orderCase{Name: "stdin-infix", Src: "(<>.S + <>.S).p", Stdin: "l1\nl2\n", WantOut: "l1l2\n"})
